@@ -1,4 +1,5 @@
-"""C02 — backend requests authenticated by per-backend HMAC (api_backend.go, backend_server.go, backend_client.go)."""
+"""C02 — backend requests authenticated by per-backend HMAC (api_backend.go, backend_server.go, backend_client.go,
+backend_configuration.go / backend_storage_static.go for the backend a URL belongs to)."""
 import collections
 from ._util import verdict_stats as _verdict_stats
 
@@ -54,22 +55,33 @@ CONFIG = dict(
         "C02_valid_checksum_unique", "C02_tamper_rejected", "C02_tampered_request_403", "C02_tampered_request_403_search",
         "C02_boundary_shift", "C02_boundary_shift_auth", "C02_boundary_shift_not_403",
         "C02_outgoing", "C02_outgoing_unconfigured", "C02_outgoing_fresh", "C02_outgoing_other_secret",
+        "prefix_slash_eq_components", "C02_config_url_slash_terminated", "C02_entry_match_iff_under", "C02_lookup_owner",
+        "C02_hdr_claims", "C02_prefix_without_slash_is_not_ownership",
     ]] + ["SigModel.Hmac.toyMac_ideal", "SigModel.Bytes.toHex_injective"],
     generated=["Checksum"],
     harness=dict(pkg="signaling", test="TestVerifC02", files=["zz_verif_hex_test.go"]),
     stats=c02_stats,
     nontrivial=c02_nontrivial,
-    rule="per case one backend configuration (1-3 backends on distinct or shared hosts with distinct, equal or one-character-apart "
+    rule="per case one backend configuration (1-3 backends on distinct or shared hosts — in half of the cases sibling urls of which "
+         "one is a string prefix of another without being its parent, /one/ and /one2/, in random configuration order, written "
+         "with or without the final slash — with distinct, equal or one-character-apart "
          "secrets; compat 'allowed' mode; allowall mode) served by a real Hub+BackendServer over a real HTTP/1.1 connection written "
          "byte by byte; per reference request (random, body, checksum by the real CalculateBackendChecksum): the request as it is with "
          "and without backend header, single-bit flips of body/random/checksum, checksum and random truncated/extended/upper-cased/"
          "empty, body truncated/extended/empty, random/body boundary shifts in both directions, every other backend claimed / every "
-         "other backend's secret used, unknown and malformed backend headers, content types, chunked and oversized bodies; plus "
+         "other backend's secret used, unknown and malformed backend headers, other spellings of the signer's backend url (no final "
+         "slash, deeper path, doubled slash) and the urls next to it (longer and shorter siblings, parent, other case, scheme, host) "
+         "each with the claim the spec derives from the url components, content types, chunked and oversized bodies; plus "
          "function-level ValidateBackendChecksumValue on random bytes and every outgoing request kind (auth, room join/leave, ping, "
-         "session add/remove) to every backend through PerformJSONRequest against a recording fake backend; a case is non-trivial if "
+         "session add/remove) to every backend — and to the urls next to a backend's — through PerformJSONRequest against a recording "
+         "fake backend; a case is non-trivial if "
          "at least one request was accepted (200) and at least five were refused (403); distinct = distinct op lists",
-    trusted_base=["which backend a Spreed-Signaling-Backend header value resolves to is an input of the model (C13's subject); the "
-                  "harness cross-checks each op's claim by calling BackendConfiguration.GetBackend directly",
+    trusted_base=["which backend a url belongs to: modelled (getBackendLocked / getConfiguredHosts, statements read from the source) and "
+                  "specified (url components) for plain http(s)://host/path urls in a configuration with backend urls; for other "
+                  "header values and in the compat modes it is an input of the model (C13's subject). In both cases the harness "
+                  "compares the op's claim with BackendConfiguration.GetBackend called directly and reports a difference (lookup=…)",
+                  "url.Parse followed by URL.String() is the identity on plain urls; host table and scheme rule are subsumed by the "
+                  "comparison of whole url strings with a '/'-terminated entry url (not modelled separately)",
                   "whether an authenticated body is a valid 'message' request is an input (json.Unmarshal + CheckValid called by the harness)",
                   "net/http: header values reach the handler with leading/trailing blanks removed (the ops carry the trimmed values)",
                   "crypto/rand for the freshness of outgoing randoms (observed pairwise distinct per case, not proved)",
@@ -83,9 +95,12 @@ MANIFEST = dict(
          "of roomHandler as extracted from the source, of Calculate/ValidateBackendChecksum and of the outgoing signing, with the "
          "MAC as a parameter under an explicit ideal-MAC hypothesis; tied to the code by regenerated facts (header names, hash, "
          "order of MAC writes, whole-string comparison, statement order of roomHandler, nothing published before validation, single "
-         "signed outgoing POST site, random length) and a differential run of the real BackendServer over real HTTP and of "
+         "signed outgoing POST site, random length, the statements of the url-to-backend lookup and of the url normalisation at "
+         "configuration time) and a differential run of the real BackendServer over real HTTP and of "
          "PerformJSONRequest against a recording backend, executing a Lean HMAC-SHA256 compared with crypto/hmac.",
-    note="Trusted: Lean kernel, extractor, harness, net/http, backend lookup and body validity as inputs. Unforgeability of HMAC "
+    note="Trusted: Lean kernel, extractor, harness, net/http, body validity and (outside plain urls / in compat modes) backend "
+         "lookup as inputs. The backend a plain url belongs to is proved to be the one whose url components lead the url's "
+         "(C02_lookup_owner), which needs the '/'-terminated comparison. Unforgeability of HMAC "
          "is assumed, not proved. The random/body boundary is not authenticated (proved as C02_boundary_shift; over HTTP such a "
          "request authenticates and fails in the JSON decoder with 400 instead of 403, publishing nothing).",
     technique="Lean 4 proof (characterisation of the interpreted handler, ideal-MAC corollaries) + regenerated facts + differential correspondence",
